@@ -11,6 +11,10 @@
 //   can <T> <hex>               DatatypeValidator::getCanonicalRepresentation(toValidate=true) -> ok <hex> | null
 //   pe  <T> <hex>               parse <e>value</e> against the generated schema  -> valid | invalid
 //   pa  <T> <hex>               parse <a v="value"/>                              -> valid | invalid
+//   pc  <T> <chunks>            parse <e>..</e> whose content is given as chunks l<hex>,r<hex>,c<hex> (literal text, character
+//                               references, CDATA section)   -> valid <schema-normalised text seen by the handler> | invalid
+//   pb  <T> <chunks>            same for the attribute value (l and r chunks)
+//   T may also be <item>list (e.g. intlist): a list type over the built-in item type
 //   b64 <hex> / hex <hex>       Base64::decodeToXMLByte / HexBin::decodeToXMLByte (XMLCh input) -> ok <bytes> | null
 #include "xh_common.hpp"
 #include <xercesc/framework/psvi/XSValue.hpp>
@@ -18,6 +22,7 @@
 #include <xercesc/framework/XMLGrammarPoolImpl.hpp>
 #include <xercesc/parsers/SAXParser.hpp>
 #include <xercesc/sax/HandlerBase.hpp>
+#include <xercesc/sax/AttributeList.hpp>
 #include <xercesc/sax/SAXParseException.hpp>
 #include <xercesc/validators/datatype/DatatypeValidatorFactory.hpp>
 #include <xercesc/validators/datatype/DatatypeValidator.hpp>
@@ -78,6 +83,20 @@ static std::string excName(const XMLException& e) {
 struct ErrCount : public HandlerBase {
     int n = 0;
     std::string first;
+    std::vector<XMLCh> text;      // schema-normalised character data / attribute value as delivered to the handler
+    int chunks = 0;
+    void characters(const XMLCh* const chars, const XMLSize_t length) override {
+        text.insert(text.end(), chars, chars + length); chunks++;
+    }
+    void ignorableWhitespace(const XMLCh* const chars, const XMLSize_t length) override {
+        text.insert(text.end(), chars, chars + length); chunks++;
+    }
+    void startElement(const XMLCh* const, AttributeList& attrs) override {
+        for (XMLSize_t i = 0; i < attrs.getLength(); i++) {
+            const XMLCh* nm = attrs.getName(i);
+            if (nm[0] == 'v' && nm[1] == 0) { const XMLCh* v = attrs.getValue(i); text.insert(text.end(), v, v + XMLString::stringLen(v)); }
+        }
+    }
     void note(const SAXParseException& e) { if (!n) first = narrow(e.getMessage()); n++; }
     void warning(const SAXParseException&) override {}
     void error(const SAXParseException& e) override { note(e); }
@@ -144,6 +163,11 @@ static TypeInfo& getType(const std::string& spec) {
                     "<xs:schema xmlns:xs=\"http://www.w3.org/2001/XMLSchema\" targetNamespace=\"" + ns +
                     "\" xmlns:t=\"" + ns + "\" elementFormDefault=\"qualified\">\n";
     std::string prev = "xs:" + base;
+    // "<item>list" = a list type over a built-in item type (e.g. intlist, decimallist)
+    if (base.size() > 4 && base.compare(base.size() - 4, 4, "list") == 0) {
+        s += " <xs:simpleType name=\"t0\"><xs:list itemType=\"xs:" + base.substr(0, base.size() - 4) + "\"/></xs:simpleType>\n";
+        prev = "t:t0";
+    }
     if (groups.empty()) groups.push_back(std::vector<std::pair<std::string, std::string> >());
     for (size_t g = 0; g < groups.size(); g++) {
         std::string name = (g + 1 == groups.size()) ? "t" : "t" + std::to_string(g + 1);
@@ -224,6 +248,45 @@ static std::string doParse(TypeInfo& ti, const std::vector<uint32_t>& val, bool 
     return gErr.n ? "invalid" : "valid";
 }
 
+// content given as chunks: l<hex> literal characters, r<hex> character references, c<hex> a CDATA section
+static std::string doParseChunks(TypeInfo& ti, const std::string& spec, bool attr) {
+    std::string ns = "urn:t" + std::to_string(ti.id);
+    std::string body;
+    size_t i = 0;
+    while (i < spec.size()) {
+        size_t j = spec.find(',', i);
+        if (j == std::string::npos) j = spec.size();
+        std::string item = spec.substr(i, j - i);
+        i = j + 1;
+        if (item.empty()) continue;
+        char kind = item[0];
+        std::vector<uint32_t> val = parseHex(item.substr(1), 4);
+        if (kind == 'c') body += "<![CDATA[";
+        for (uint32_t u : val) {
+            if (!xmlCharOk(u) || u > 0x7E) return "skip";
+            if (kind == 'r') { char b[16]; snprintf(b, sizeof b, "&#x%X;", (unsigned)u); body += b; }
+            else if (kind == 'c') body += (char)u;
+            else if (u == '<') body += "&lt;"; else if (u == '&') body += "&amp;"; else if (u == '"') body += "&quot;";
+            else body += (char)u;
+        }
+        if (kind == 'c') body += "]]>";
+    }
+    std::string doc = "<?xml version=\"1.0\" encoding=\"UTF-8\"?>";
+    if (attr) doc += "<a xmlns=\"" + ns + "\" v=\"" + body + "\"/>";
+    else doc += "<e xmlns=\"" + ns + "\">" + body + "</e>";
+    gErr.n = 0; gErr.text.clear(); gErr.chunks = 0;
+    try {
+        MemBufInputSource src((const XMLByte*)doc.data(), doc.size(), "mem:doc");
+        gParser->parse(src);
+    } catch (const XMLException& e) {
+        return "exception " + excName(e);
+    } catch (const SAXParseException&) {
+        return "invalid";
+    }
+    if (gErr.n) return "invalid";
+    return "valid " + showHex(gErr.text.data(), gErr.text.size(), 4);
+}
+
 // ------------------------------------------------------------------------------------------------
 static XSValue::DataType dtOf(const std::string& n) {
     std::vector<XMLCh> x = asciiX(n);
@@ -266,6 +329,7 @@ int main() {
         gParser->useCachedGrammarInParse(true);
         gParser->cacheGrammarFromParse(false);
         gParser->setErrorHandler(&gErr);
+        gParser->setDocumentHandler(&gErr);
         gParser->setExitOnFirstFatalError(true);
         gParser->setLoadExternalDTD(false);
     }
@@ -288,6 +352,9 @@ int main() {
                     XSValue* v = XSValue::getActualValue(s.data(), dt, st, XSValue::ver_10, true, mm);
                     if (v) { r = "ok " + dumpActual(v); delete v; } else r = "null";
                 }
+            } else if (a.size() == 3 && (a[0] == "pc" || a[0] == "pb")) {
+                TypeInfo& ti = getType(a[1]);
+                r = ti.ok ? doParseChunks(ti, a[2], a[0] == "pb") : ti.err;
             } else if (a.size() >= 3 && (a[0] == "dv" || a[0] == "cmp" || a[0] == "can" || a[0] == "pe" || a[0] == "pa")) {
                 TypeInfo& ti = getType(a[1]);
                 if (!ti.ok) r = ti.err;
